@@ -388,4 +388,16 @@ Section CompWF.
     split; [intros u v; exact (wstep_iff g u v W Hd)|].
     exact (wstep_closed_wf g W Hd).
   Qed.
+
+  (* the adjacency query of the searches, against the edge list *)
+  Theorem successors_or_neighbors_wf (g : gstate) u :
+    WF g -> In u (g_nodes g) ->
+    exists ns, get_successors_or_neighbors teqb g u = Ok ns /\
+               forall v, In v (map nname ns) <-> g_follow g u v.
+  Proof.
+    intros W Hu. destruct (adj_total_wf g W u Hu) as (ns & Hq & _). exists ns. split; [exact Hq|].
+    intros v. rewrite <- (step_iff g u v W). unfold step. split.
+    - intros Hv. exists ns. auto.
+    - intros (ns' & Hq' & Hv). rewrite Hq in Hq'. inversion Hq'; subst. exact Hv.
+  Qed.
 End CompWF.
